@@ -22,7 +22,7 @@ from .. import wbrun as R
 from . import c03
 
 PID = 'C15'
-GEN_KW = {'n_cells': 9, 'features': ['names', 'array'], 'case_titles': True}
+GEN_KW = {'n_cells': 9, 'features': ['names', 'array'], 'case_titles': True, 'twoblocks': True}
 
 
 def pick_outs(g, s):
@@ -32,6 +32,11 @@ def pick_outs(g, s):
         # one sheet title in two books: ask for (nearly) everything, so that both sheets
         # of that title are completed within one model
         return forms[-6:]
+    if sum(1 for c in g.cells.values() if c['k'] == 'af') >= 2 and len(g.sheets) == 1:
+        # two array-formula blocks on one sheet: the outputs that read spill cells of both
+        plain = [i for i in forms if g.cells[i]['k'] == 'f']
+        if len(plain) >= 2:
+            return [plain[1]] if s % 2 == 0 else [plain[1], plain[0]]
     return rnd.sample(forms, min(len(forms), rnd.randint(1, 2))) or [g.order[0]]
 
 
